@@ -7,7 +7,7 @@ from ropt.plugins.optimizer.base import OptimizerPlugin
 
 from ..core import PropertyCheck
 
-METH = {"a": "rv-a", "b": "rv-b", "c": "rv-c", "s": "slsqp", "t": "scipy/slsqp"}       # spec method -> real method name
+METH = {"a": "rv-a", "b": "rv-b", "c": "rv-c", "s": "slsqp", "t": "scipy/slsqp", "d": "default"}       # spec method -> real method name
 SETS = {1: {"a", "b", "s"}, 2: {"b", "c"}, 3: {"a", "c"}}
 PTYPE = "optimizer"
 
@@ -116,7 +116,7 @@ def extra_scenarios(tier, seed):
     import random
     rng = random.Random(seed)
     adds = [("x", 1), ("X", 2), ("y", 2), ("z", 3), ("Z", 1), ("Y", 3)]
-    reqs = [("", "a"), ("", "b"), ("", "c"), ("", "s"), ("X", "a"), ("x", "c"), ("y", "b"), ("z", "a"), ("external", "s"), ("external", "t"), ("External", "t"),
+    reqs = [("", "a"), ("", "b"), ("", "c"), ("", "s"), ("", "d"), ("external", "d"), ("X", "a"), ("x", "c"), ("y", "b"), ("z", "a"), ("external", "s"), ("external", "t"), ("External", "t"),
             ("q", "a"), ("Z", "c"), ("scipy", "s"), ("SciPy", "s")]
     out = []
     for _ in range(2000 if tier == "quick" else 20000):
